@@ -589,7 +589,9 @@ def oracle_full(ctx, prog, tag):
         for key, what in problems:
             failed |= bool(ctx.fail("%s:%s" % (tag, key), what, replay))
         ec, ef = expected_counts(prog)
-        nprocs = sum(len(v[0]) for v in ftab.values())
+        # a function that needs no Fortran wrapper is exposed through its bind(C) interface under the
+        # Fortran name (no F_C_prefix "c_"); it counts as the specific procedure of that signature
+        nprocs = sum(len(v[0]) + len([b for b in v[1] if not b.startswith("c_")]) for v in ftab.values())
         # class helper procedures (get_instance, ...) only exist for classes; compare for class-free programs
         has_cls = any(k == "cls" for c in prog["containers"] for k, _ in c["path"])
         if len(cdefs) != ec and not has_cls:
@@ -616,7 +618,7 @@ def oracle_full(ctx, prog, tag):
             for fn_, v in ftab.items():
                 for g, mem in v[2].items():
                     got.append((g, len(mem)))
-                    if any(not (m == g or m.startswith(g + "_")) for m in mem):
+                    if any(not m.startswith(g) for m in mem):
                         failed |= bool(ctx.fail("%s:generic-members" % tag, "generic interface %s of %s lists %s: not all specifics of that name" % (g, fn_, mem), replay))
             if sorted(got) != sorted(expected):
                 failed |= bool(ctx.fail("%s:generic-interfaces" % tag, "generic interfaces (name, members) %s, expected %s" % (sorted(got), sorted(expected)), replay))
